@@ -92,3 +92,37 @@ def strip_prefixes(roots) -> set:
             r = r.split("<-", 1)[1]
         out.add(r)
     return out
+
+
+def linear_factor(e: ast.AST) -> tuple:
+    """Flatten a product/quotient: (numeric constant factor, sorted tuple of the other factors' normalised text).
+
+    0.5*a*b, a*b/2, a*0.5*b, -(a*b)*0.5*-1 ... all give (0.5, ('a','b')); a divisor x appears as '1/(x)'.
+    """
+    num = [1.0 + 0j]
+    rest: list[str] = []
+
+    def walk(n: ast.AST, inv: bool) -> None:
+        if isinstance(n, ast.BinOp) and isinstance(n.op, ast.Mult):
+            walk(n.left, inv)
+            walk(n.right, inv)
+        elif isinstance(n, ast.BinOp) and isinstance(n.op, ast.Div):
+            walk(n.left, inv)
+            walk(n.right, not inv)
+        elif isinstance(n, ast.UnaryOp) and isinstance(n.op, ast.USub):
+            num[0] *= -1
+            walk(n.operand, inv)
+        elif isinstance(n, ast.UnaryOp) and isinstance(n.op, ast.UAdd):
+            walk(n.operand, inv)
+        elif isinstance(n, ast.Constant) and isinstance(n.value, (int, float, complex)) and not isinstance(n.value, bool):
+            num[0] = num[0] / n.value if inv else num[0] * n.value
+        elif isinstance(n, ast.Call) and (dotted(n.func) or "").split(".")[-1] == "cast" and len(n.args) == 2:
+            walk(n.args[1], inv)
+        else:
+            t = norm(n)
+            rest.append(f"1/({t})" if inv else t)
+
+    walk(e, False)
+    v = num[0]
+    v = v.real if abs(v.imag) < 1e-15 else v
+    return (v, tuple(sorted(rest)))
